@@ -555,6 +555,9 @@ OBLIGATIONS.append(k2("once.wrapper", _k2h("react::react_commands", "once_reacto
                              "removes is decided by the C06 obligations, what the token names by token.every_member)"],
                       no_native_playback=True, witness=[["once", "twice"], ["once", "self_trigger"]]))
 
+OBLIGATIONS.append(k2("once.witness", _k2h("react::react_commands", "once_reactor_witness"), ["C15"], [], ["src/react/react_commands.rs"], "-",
+                      "vacuity twin of once.wrapper", expect="fail",
+                      stubs=["ReactCommands::revoke -> record_revoke"]))
 OBLIGATIONS += [
     k2("register.empty_bundle", _k2h("react::react_commands", "register_reactors_empty_bundle"), ["C15", "C07"],
        ["register_reactors", "ReactorMode::prepare", "ReactionTriggerBundle::register_triggers for ()"],
@@ -757,7 +760,7 @@ _QUICK_ONLY_FOR = {
     "cmd.apply_reaction_broadcast": ["C05", "C18"],
     "cmd.pair_broadcast_event": ["C05"], "cmd.pair_system_event": ["C04"], "cmd.pair_despawn_reaction": ["C07"],
     "rc.register_broadcast_2_1": ["C01"], "rc.register_mutation_1_1_1": ["C15"], "rc.register_despawn_by_entity": ["C08"],
-    "register.two_triggers": ["C15"], "register.empty_bundle": ["C15"], "token.every_member": ["C06", "C15"],
+    "register.two_triggers": ["C15"], "register.empty_bundle": ["C15"], "token.every_member": ["C06", "C15", "C16"],
 }
 
 
